@@ -29,7 +29,8 @@ package utils
 //@   site call Unmarshal@1 SANVALUE: [C20] requires arg0 == extension.Value && asn1.OIDEqual(extension.Id, OIDSubjectAltName)
 //@   site call UnmarshalWithParams OTHERNAME: [C20] requires arg0 == value.FullBytes && value.Tag == 0 && arg2 == "tag:0"
 //@   site call Unmarshal@2 NAMEVALUE: [C20] requires arg0 == on.Value.Bytes && asn1.OIDEqual(on.ID, OIDReceptorName)
-//@   site call append DECODED: [C20] requires len(arg1) == 1 && arg1[0] == name
+//@   ghostflag valuedecoded set call:Unmarshal clear call:UnmarshalWithParams
+//@   site call append DECODED: [C20] requires len(arg1) == 1 && arg1[0] == name && flag("valuedecoded")
 //@   site call append AFTERDECODE: [C20] requires err == nil
 //@   site call append RECEPTOROID: [C20] requires asn1.OIDEqual(on.ID, OIDReceptorName)
 //@   ensures NOPARTIAL: [C20] result.1 != nil ==> result.0 == nil
@@ -108,6 +109,7 @@ package utils
 //@   site call Write VERBATIM: [C03] requires ref(arg0) == ref(buf) && off(arg0) == off(buf) && len(arg0) == n && n == lastcall("Read", 0) && n > 0 && !flag("written")
 //@   site continue #1 NOLOSS: [C03] requires lastcall("Read", 1) == nil && (lastcall("Read", 0) > 0 ==> flag("written") && lastcall("Write", 1) == nil && lastcall("Write", 0) == lastcall("Read", 0))
 //@   ensures PROPAGATE: [C03] flag("closed2")
+//@   ensures NOTHINGDROPPED: [C03] flag("read") && lastcall("Read", 0) > 0 ==> flag("written")
 //@   loop #1
 //@     invariant SAMEBUF: [C03] len(buf) == 65536 && buf != nil && !flag("closed2")
 //@     invariant DRAINED: [C03] flag("read") && lastcall("Read", 0) > 0 ==> flag("written")
